@@ -4,6 +4,7 @@ UNIT = dict(
     properties=['C12', 'C13', 'C04'],
     prelude=['arch64.rs'],
     rlimit=80,
+    post=['order.rs'],
     types=[
         dict(file=O, kind='type', name='ObjectId'),
         dict(file=D, kind='const', name='PAGE_TREE_DEPTH_LIMIT'),
